@@ -84,7 +84,9 @@ theorem suppliesView_shape (s : St) :
     obtain ⟨c, c', h⟩ := hI s ⟨s.supAmtC, s.supC, rfl⟩
     split
     · rename_i e s1 heq
-      rw [heq] at h; exact ⟨c, c', h⟩
+      rw [heq] at h
+      dsimp only at h ⊢
+      exact ⟨c, s.supC, by rw [h]⟩
     · rename_i s1 heq
       rw [heq] at h; exact ⟨c, c', h⟩
   · exact ⟨s.supAmtC, s.supC, rfl⟩
@@ -103,7 +105,9 @@ theorem borrowsView_shape (s : St) :
     obtain ⟨c, c', h⟩ := hI s ⟨s.borAmtC, s.borC, rfl⟩
     split
     · rename_i e s1 heq
-      rw [heq] at h; exact ⟨c, c', h⟩
+      rw [heq] at h
+      dsimp only at h ⊢
+      exact ⟨c, s.borC, by rw [h]⟩
     · rename_i s1 heq
       rw [heq] at h; exact ⟨c, c', h⟩
   · exact ⟨s.borAmtC, s.borC, rfl⟩
